@@ -486,8 +486,8 @@ class OdeSeamEngine:
 
     def submodes(self, tier):
         if tier == "quick":
-            return [("direct", 500), ("transform", 900)]
-        return [("direct", 20000), ("transform", 40000)]
+            return [("direct", 500), ("transform", 900), ("steep", 150)]
+        return [("direct", 20000), ("transform", 40000), ("steep", 6000)]
 
     def determinism_sample(self, tier):
         return 32 if tier == "quick" else 256
@@ -498,7 +498,48 @@ class OdeSeamEngine:
     def max_reported_classes(self):
         return 4
 
+    def _generate_steep(self, seed, submode):
+        """Initial-value problems through strongly stretching maps on intervals that end close to the end of the map's
+        domain (transform derivatives of 1e8 ... 1e22).  The eighth-order explicit Runge-Kutta integrator DOP853 (the only one used here; RK45, Radau and LSODA lose 3-6 digits at third order) reproduces the
+        solution to 1e-9 there; SciPy's collocation BVP solver does not resolve such problems at any tolerance
+        (it reports success and is off by 1e-2 ... 1e2 - a conditioning matter of the solver, not of the change of
+        variables), so these runs contain initial-value solves only."""
+        rng = random.Random(seed)
+        P = None
+        for attempt in range(40):
+            cand = OP.gen_problem(rng, True)
+            if cand.get("amp", 1.0) != 1.0:
+                continue
+            fam = rng.choice(["handy", "handy", "handy", "becke", "knowles", "handymod"])
+            if fam == "handy":
+                t = ["handy", rng.choice([0.0, 0.1]), round(rng.uniform(0.8, 1.6), 2), rng.choice([3, 4, 5, 6])]
+            elif fam == "becke":
+                t = ["becke", rng.choice([0.0, 0.1]), round(rng.uniform(0.8, 1.6), 2)]
+            elif fam == "knowles":
+                t = ["knowles", rng.choice([0.0, 0.1]), round(rng.uniform(0.8, 1.6), 2), rng.choice([2, 3])]
+            else:
+                t = ["handymod", rng.choice([0.0, 0.1]), round(rng.uniform(5.0, 20.0), 1), rng.choice([3, 4])]
+            cand["tspec"], cand["alts"] = t, []
+            # (third order through the steepest maps costs DOP853 three more digits: its interval ends a little earlier)
+            cand["a"], cand["b"] = round(rng.uniform(0.1, 0.4), 3), rng.choice([0.9, 0.97, 0.99, 0.995] if cand["order"] < 3 else [0.9, 0.95])
+            cand["tol"] = 1e-6
+            ref = OP.reference_error(cand, cand["tol"])
+            if ref is not None and ref <= 0.1 * ODE_ENVELOPE * cand["tol"]:
+                P = cand
+                break
+        if P is None:
+            P = {"order": 1, "a": 0.2, "b": 0.97, "terms": [["exp", 1.0, -1.0]], "coeffs": [["const", 1.0], ["const", 1.0]], "bc": [[0, 0]], "tspec": ["handy", 0.0, 1.0, 5], "n": 10, "tol": 1e-6}
+        ops = []
+        for _ in range(rng.randint(2, 5)):
+            if rng.random() < 0.85:
+                ops.append(["ivp", rng.choice(["tf", "tf", "direct"]), "DOP853", 0, False, rng.choice([None, None, "int_list"]), rng.random() < 0.25])
+            else:
+                ops.append(["perturb", rng.randrange(200), rng.choice([None, 0, 7])])
+        return {"engine": self.NAME, "seed": seed, "submode": submode, "problem": P, "ops": ops}
+
     def generate(self, seed, submode):
+        if submode == "steep":
+            return self._generate_steep(seed, submode)
         rng = random.Random(seed)
         P = None
         for attempt in range(40):
